@@ -12,7 +12,7 @@ import (
 const NTemplates = 11
 
 // NFileTemplates file-passing skeletons follow the NTemplates dataflow ones.
-const NFileTemplates = 7
+const NFileTemplates = 8
 
 func ref(call string, path ...string) *Exp { return &Exp{Kind: ERefCall, Id: call, Path: path} }
 func self(id string, path ...string) *Exp  { return &Exp{Kind: ERefSelf, Id: id, Path: path} }
@@ -327,6 +327,18 @@ func Template(kind int, seed int64, cfg *Config) *Program {
 				{Callee: "MK", Map: true, Volatile: g.pct(50), Binds: []Binding{{Id: "x", Exp: ref("GENI", "arr"), Split: true}}},
 			}}
 		switch fk {
+		case 7:
+			// one volatile producer, two consumers of its files: the checks give
+			// CKILL a transient failure (its monitor is killed on the first
+			// attempt, mrp retries it) while COK completes a moment later
+			top.Calls = []*Call{
+				{Callee: "MK", Volatile: true, Binds: []Binding{{Id: "x", Exp: lit(s1)}}},
+				{Callee: "CONS", Alias: "COK", Binds: []Binding{{Id: "f", Exp: ref("MK", "f")}, {Id: "s", Exp: ref("MK", "s")}}},
+				{Callee: "CONS", Alias: "CKILL", Binds: []Binding{{Id: "f", Exp: ref("MK", "f")}, {Id: "s", Exp: ref("MK", "s")}}},
+			}
+			top.Outs = []Param{{Name: "y1", Type: TInt}, {Name: "y2", Type: TInt}}
+			top.Ret = []Binding{{Id: "y1", Exp: ref("COK", "y")}, {Id: "y2", Exp: ref("CKILL", "y")}}
+			p.Stages = p.Stages[1:] // GENI unused
 		case 6:
 			// pass-through: a file made by a stage nested in a sub-pipeline and
 			// a stage at top level that hands it on (the probe makes LINK's
